@@ -25,10 +25,14 @@ type params struct {
 	BPings   bool // the broker sends pings of its own
 	LateReply bool // an application request gives up (200 ms) and its answer arrives 1.5 s later; the pongs stay prompt
 	Burst    int  // the broker sends this many pings at once while the client's transport write is stalled (back pressure)
+	HandlerStall bool // after the redial the application's OnReconnected handler takes several keep-alive rounds while the (healthy) broker forwards ten calls
 	P        int
 }
 
 func (p params) name() string {
+	if p.HandlerStall {
+		return fmt.Sprintf("i%v/t%v/k%d/%s/handlerstall/P%d", p.Interval, p.Timeout, p.K, p.Mode, p.P)
+	}
 	if p.LateReply {
 		return fmt.Sprintf("i%v/t%v/k%d/%s/traffic%v/latereply/P%d", p.Interval, p.Timeout, p.K, p.Mode, p.Traffic, p.P)
 	}
@@ -84,6 +88,9 @@ func scenarios(tier string) []vlib.Scenario {
 		add(params{Interval: time.Second, Timeout: time.Second, K: -1, Mode: "prompt", Burst: n})
 	}
 	add(params{Interval: time.Second, Timeout: time.Second, K: -1, Mode: "prompt", Burst: 12, P: 1})
+	// a slow application handler after the redial must not cost the healthy new connection
+	add(params{Interval: time.Second, Timeout: time.Second, K: 1, Mode: "silent", HandlerStall: true})
+	add(params{Interval: time.Second, Timeout: time.Second, K: 1, Mode: "silent", HandlerStall: true, P: 1})
 	if tier == "thorough" {
 		for _, c := range cfgs[:4] {
 			for k := 0; k <= 2; k++ {
@@ -178,6 +185,17 @@ func (w *world) main() {
 		opts = append(opts, iscp.WithConnPingTimeout(w.p.Timeout))
 	} else {
 		opts = append(opts, iscp.WithConnPingTimeout(0))
+	}
+	if w.p.HandlerStall {
+		opts = append(opts, iscp.WithConnReconnectedEventHandler(iscp.ReconnectedEventHandlerFunc(func(*iscp.ReconnectedEvent) {
+			w.Reconn = append(w.Reconn, vsched.Now())
+			if c := w.B.Live(); c != nil {
+				for i := 0; i < 10; i++ {
+					w.B.Send(c, &message.DownstreamCall{CallID: fmt.Sprintf("call-%d", i), SourceNodeID: "peer", Name: "n", Type: "t"})
+				}
+			}
+			vsched.Sleep(4*(interval+timeout), "h:slow-handler") // touches nothing of the library
+		})))
 	}
 	if err := w.Connect(w.script(), opts...); err != nil {
 		return
@@ -311,6 +329,9 @@ func run(sc vlib.Scenario, cfg vsched.Config) (*vsched.Result, vlib.Verdict) {
 			} else if redialAt > bound {
 				v.Fail("C15.recover", fmt.Sprintf("late-redial/dev=%v", dev), "redial at %v, later than %v", redialAt, bound)
 			}
+		}
+		if w.p.HandlerStall && (len(w.Disc) > 1 || len(w.B.Conns) > 2) {
+			v.Fail("C15.false-positive", fmt.Sprintf("handlerstall/dev=%v", dev), "the redialled broker answered every ping at once, yet the client gave up that connection too while the application's OnReconnected handler was running (disconnects at %v, %d incarnations)", w.Disc, len(w.B.Conns))
 		}
 	case "justintime", "prompt":
 		if len(w.Disc) > 0 {
